@@ -502,10 +502,10 @@ func c13CLI(c *fw.Ctx) fw.Outcome {
 	key := fw.HashString(m.desc) ^ 0xc13
 	in := filepath.Join(c.TmpDir(), "in.ttml")
 	out := filepath.Join(c.TmpDir(), "out.ttml")
-	os.Remove(out)
 	f, _ := os.Create(in)
 	err := m.sub.WriteToTTML(f)
 	f.Close()
+	out = outPath(c.R, in, out)
 	if err != nil {
 		return fw.Skip()
 	}
